@@ -217,7 +217,11 @@ impl FsmExecutor {
         if extension.eq_ignore_ascii_case("scxml") || extension.eq_ignore_ascii_case("xml") {
             #[cfg(feature = "Debug")]
             debug!("Loading FSM from XML {}", uri);
-            sm = scxml_reader::parse_from_uri(uri.to_string(), &self.include_paths);
+            // The reader rejects non-conformant documents by panicking; a session that invokes
+            // such a document must survive that.
+            let include_paths = self.include_paths.clone();
+            sm = std::panic::catch_unwind(move || scxml_reader::parse_from_uri(uri.to_string(), &include_paths))
+                .unwrap_or_else(|_| Err(format!("Document '{}' was rejected by the reader", uri)));
         }
 
         #[cfg(feature = "serializer")]
@@ -273,7 +277,12 @@ impl FsmExecutor {
 
         // Use reader to parse the XML:
         #[cfg(feature = "xml")]
-        let sm = scxml_reader::parse_from_xml_with_includes(xml.to_string(), &self.include_paths);
+        let sm = {
+            // see execute_with_data()
+            let include_paths = self.include_paths.clone();
+            std::panic::catch_unwind(move || scxml_reader::parse_from_xml_with_includes(xml.to_string(), &include_paths))
+                .unwrap_or_else(|_| Err("Document was rejected by the reader".to_string()))
+        };
         #[cfg(not(feature = "xml"))]
         let sm = Ok(Box::new(Fsm::new()));
 
